@@ -339,6 +339,12 @@ func missErrFunc(c *Ctx, fr *frame, done map[*ssa.Function]bool, whole bool) {
 			case *ssa.UnOp:
 				slice(y.X, d+1, below)
 			case *ssa.FieldAddr:
+				if a, isAlloc := y.X.(*ssa.Alloc); isAlloc {
+					if sv := wholeStoreOf(a); sv != nil {
+						slice(sv, d+1, below) // a field of the element found (blob.bytes)
+						break
+					}
+				}
 				slice(y.X, d+1, below)
 			case *ssa.Field:
 				slice(y.X, d+1, below)
@@ -1375,15 +1381,24 @@ func runREADWHOLE(c *Ctx) {
 			if !ok {
 				return
 			}
-			if _, isBytes := mu.Value.Type().Underlying().(*types.Slice); !isBytes {
+			held, known := containedSlices(mu.Value)
+			if known && len(held) == 0 {
 				return
 			}
 			what := "map update in " + ir.FuncName(fr.fn)
+			var notBytes ssa.Value
+			for _, hv := range held {
+				if !isRootParam(hv, fr, 3) && !copyOfRootParam(hv, fr, 3) {
+					notBytes = hv
+				}
+			}
 			switch {
+			case !known:
+				c.Undecided(fr.fn, P.InstrPos(mu), "stored value", "the value put into the map is a struct built where the rule cannot see its fields")
 			case !isRootParam(mu.Key, fr, 2):
 				c.Violation(fr.fn, P.InstrPos(mu), "stored under something other than the name", "Store keeps the node under "+descFval(expand(mu.Key, fr))+" instead of its name parameter")
-			case !isRootParam(mu.Value, fr, 3) && !copyOfRootParam(mu.Value, fr, 3):
-				c.Violation(fr.fn, P.InstrPos(mu), "stored value is not the bytes parameter", "Store keeps "+descFval(expand(mu.Value, fr))+" instead of exactly its bytes parameter: a later Load cannot return the complete content")
+			case notBytes != nil:
+				c.Violation(fr.fn, P.InstrPos(mu), "stored value is not the bytes parameter", "Store keeps "+descFval(expand(notBytes, fr))+" instead of exactly its bytes parameter: a later Load cannot return the complete content")
 			default:
 				c.OK(P.InstrPos(mu), what, "the complete bytes parameter (or a complete copy of it) is kept under the name parameter", false)
 			}
@@ -1692,7 +1707,8 @@ func runSTOREALIAS(c *Ctx) {
 				default:
 					return
 				}
-				if _, isSlice := val.Type().Underlying().(*types.Slice); !isSlice {
+				held, known := containedSlices(val)
+				if known && len(held) == 0 {
 					return
 				}
 				field, isState := receiverState(where, fr)
@@ -1700,7 +1716,16 @@ func runSTOREALIAS(c *Ctx) {
 					return
 				}
 				x := expand(val, fr)
-				srcs, unknown := aliasSources(x.v, x.fr, 0)
+				var srcs []fval
+				var unknown []string
+				if !known {
+					unknown = append(unknown, "a struct built where the rule cannot see its fields")
+				}
+				for _, hv := range held {
+					hx := expand(hv, fr)
+					s2, u2 := aliasSources(hx.v, hx.fr, 0)
+					srcs, unknown = append(srcs, s2...), append(unknown, u2...)
+				}
 				aliased := false
 				for _, sv := range srcs {
 					if isRootParam(sv.v, sv.fr, 3) {
@@ -1879,7 +1904,7 @@ func init() {
 func storeWriteEvent(c *Ctx, ins ssa.Instruction, fr *frame) string {
 	switch x := ins.(type) {
 	case *ssa.MapUpdate:
-		if _, isSlice := x.Value.Type().Underlying().(*types.Slice); isSlice {
+		if held, known := containedSlices(x.Value); !known || len(held) > 0 {
 			if f, ok := receiverState(x.Map, fr); ok {
 				return "insert into " + f
 			}
@@ -2098,6 +2123,11 @@ func aliasSources(v ssa.Value, fr *frame, d int) (srcs []fval, unknown []string)
 	}
 	if _, isCopy := copyOf(x.v); isCopy {
 		return nil, nil
+	}
+	if sv, ok := fieldOfLocalStruct(x.v); ok {
+		// a field of a struct value held in a local: it shares memory with whatever that value is
+		// (e.g. blob.bytes of the element found in the receiver's map)
+		return []fval{expand(sv, x.fr)}, nil
 	}
 	switch y := x.v.(type) {
 	case *ssa.Const, *ssa.MakeSlice, *ssa.Alloc:
